@@ -53,6 +53,14 @@ pub fn differential(nodes: &[Node], data: &RV, partials: &[(String, interp::Part
         (Ok(e), Ok(Ok(g))) => {
             if e == g {
                 obs.class("both_ok");
+                if what == "text" {
+                    // the same bytes arrive, in order, through a writer that takes 3 bytes at a time
+                    let streamed = lq::with_parser(Conf::Stdlib, |p| lq::run_streamed(p, &src, &data.to_object(), 3));
+                    obs.extra_evals += 1;
+                    if !matches!(&streamed, Ok(Ok(s)) if s == g) {
+                        return Err(Failure::new("text: streaming render through a short-writing sink differs from render()", format!("src={src:?}\n render={g:?}\n streamed={}", lq::show(&streamed))));
+                    }
+                }
                 Ok(())
             } else {
                 Err(Failure::new(format!("{what}: output differs from reference"), format!("src={src:?}\n expected={e:?}\n      got={g:?}")))
@@ -114,9 +122,17 @@ fn plain_oracle(c: &Plain, obs: &mut Obs) -> Check {
     }
     let got = lq::with_parser(Conf::Stdlib, |p| lq::run(p, &c.text, &liquid::Object::new()));
     match got {
-        Ok(Ok(s)) if s == c.text => Ok(()),
-        other => Err(Failure::new("markup-free template does not render to itself", format!("text={:?} got={}", c.text, lq::show(&other)))),
+        Ok(Ok(s)) if s == c.text => {}
+        other => return Err(Failure::new("markup-free template does not render to itself", format!("text={:?} got={}", c.text, lq::show(&other)))),
     }
+    for chunk in [1usize, 7] {
+        let streamed = lq::with_parser(Conf::Stdlib, |p| lq::run_streamed(p, &c.text, &liquid::Object::new(), chunk));
+        obs.extra_evals += 1;
+        if !matches!(&streamed, Ok(Ok(s)) if *s == c.text) {
+            return Err(Failure::new("markup-free template is not streamed byte-for-byte to a short-writing sink", format!("text={:?} chunk={chunk} got={}", c.text, lq::show(&streamed))));
+        }
+    }
+    Ok(())
 }
 
 // ---- E2: single tag, all marker combinations x adjacent whitespace pairs
